@@ -321,3 +321,83 @@ Proof.
       try (right; repeat split; (lia || reflexivity)). now left.
   - eexists; split; [reflexivity|]. right. repeat split; (lia || reflexivity).
 Qed.
+
+(* ---------------------------------------------------------------- histories *)
+Lemma serve_st_serve (st : state) (dp : datapath) (meth : string) (b : body) :
+  fst (serve_st st dp meth b) = serve dp meth b.
+Proof. unfold serve_st, serve. destruct (accepts meth); [destruct b|]; reflexivity. Qed.
+
+Lemma c19_history_independent (st st' : state) (dp : datapath) (meth : string) (b : body) :
+  fst (serve_st st dp meth b) = fst (serve_st st' dp meth b) /\
+  fst (serve_st st dp meth b) = serve dp meth b.
+Proof. now rewrite !serve_st_serve. Qed.
+
+Lemma serve_st_state (st : state) (dp : datapath) (meth : string) (b : body) :
+  snd (serve_st st dp meth b) =
+  match r_stored (serve dp meth b) with Some s => Some s | None => st end.
+Proof. unfold serve_st, serve. destruct (accepts meth); [destruct b|]; reflexivity. Qed.
+
+Lemma run_results (st : state) (dp : datapath) (reqs : list request) :
+  fst (run st dp reqs) = map (fun q => serve dp (q_meth q) (q_body q)) reqs.
+Proof.
+  revert st. induction reqs as [|q rest IH]; intros st; [reflexivity|].
+  cbn [run map]. pose proof (serve_st_serve st dp (q_meth q) (q_body q)) as E.
+  destruct (serve_st st dp (q_meth q) (q_body q)) as [r st1]. cbn [fst] in E.
+  specialize (IH st1). destruct (run st1 dp rest) as [rs st2]. cbn [fst] in *. now rewrite E, IH.
+Qed.
+
+Lemma run_app (st : state) (dp : datapath) (a b : list request) :
+  run st dp (a ++ b) =
+  (fst (run st dp a) ++ fst (run (snd (run st dp a)) dp b), snd (run (snd (run st dp a)) dp b)).
+Proof.
+  revert st. induction a as [|q rest IH]; intros st.
+  - cbn. now destruct (run st dp b).
+  - cbn [app run]. destruct (serve_st st dp (q_meth q) (q_body q)) as [r st1].
+    rewrite IH. destruct (run st1 dp rest) as [rs st2]. cbn [fst snd]. reflexivity.
+Qed.
+
+(* a request that is refused (unreadable / malformed body, or another method) *)
+Definition refused_request (q : request) : Prop :=
+  q_body q = Unreadable \/ q_body q = Malformed \/
+  (q_meth q <> "PUT"%string /\ q_meth q <> "POST"%string).
+
+Lemma refused_no_effect (dp : datapath) (q : request) : refused_request q ->
+  r_writes (serve dp (q_meth q) (q_body q)) = [] /\ r_stored (serve dp (q_meth q) (q_body q)) = None.
+Proof.
+  intros [H | [H | [H1 H2]]].
+  - apply (c19_error_untouched dp (q_meth q) (q_body q)). now left.
+  - apply (c19_error_untouched dp (q_meth q) (q_body q)). now right.
+  - rewrite c19_other_methods by assumption. split; reflexivity.
+Qed.
+
+Lemma c19_refused_keeps (st : state) (dp : datapath) (reqs : list request) (q : request) (m : list write) :
+  refused_request q ->
+  snd (run st dp (reqs ++ [q])) = snd (run st dp reqs) /\
+  meter_after m (fst (run st dp (reqs ++ [q]))) = meter_after m (fst (run st dp reqs)).
+Proof.
+  intros R. destruct (refused_no_effect dp q R) as [W S].
+  rewrite run_app. cbn [fst snd run].
+  pose proof (serve_st_serve (snd (run st dp reqs)) dp (q_meth q) (q_body q)) as E.
+  pose proof (serve_st_state (snd (run st dp reqs)) dp (q_meth q) (q_body q)) as T.
+  destruct (serve_st (snd (run st dp reqs)) dp (q_meth q) (q_body q)) as [r st1].
+  cbn [fst snd] in *. subst r. rewrite S in T. split; [exact T|].
+  unfold meter_after. rewrite fold_left_app. cbn [fold_left]. now rewrite W.
+Qed.
+
+(* an accepted request determines the meter and the cached slice info on its own *)
+Lemma c19_accepted_overrides (st : state) (dp : datapath) (reqs : list request) (meth : string) (d : doc)
+      (m : list write) :
+  meth = "PUT"%string \/ meth = "POST"%string ->
+  snd (run st dp (reqs ++ [Req meth (Decoded d)])) = Some (slice_info_of d) /\
+  (add_slice_info dp (slice_info_of d) <> [] ->
+   meter_after m (fst (run st dp (reqs ++ [Req meth (Decoded d)]))) = add_slice_info dp (slice_info_of d)).
+Proof.
+  intros H. rewrite run_app. cbn [fst snd run q_meth q_body].
+  pose proof (serve_st_serve (snd (run st dp reqs)) dp meth (Decoded d)) as E.
+  pose proof (serve_st_state (snd (run st dp reqs)) dp meth (Decoded d)) as T.
+  destruct (serve_st (snd (run st dp reqs)) dp meth (Decoded d)) as [r st1].
+  cbn [fst snd] in *. subst r. rewrite serve_decoded in * by assumption. cbn [r_stored] in T.
+  split; [exact T|]. intros NE.
+  unfold meter_after. rewrite fold_left_app. cbn [fold_left r_writes].
+  destruct (add_slice_info dp (slice_info_of d)); [contradiction|reflexivity].
+Qed.
